@@ -32,8 +32,20 @@ func Store.GetLast
   // ASSUMED data invariant: every key of the history table is a 10-byte position (index, height)
   assumes isnil(result_1) && table == HistoryTable ==> len(result_0.Key) == 10
 func Store.GetRange
+// a scan hands out a reader, which holds engine resources until it is closed (ghost count)
 func Store.GetAll
+  modifies openReaders
   ensures !isnil(result)
+  assumes openReaders == old(openReaders) + 1
+func KVPairReader.Read
+  modifies arg0[*], tilesRead, readerExhausted
+  assumes 0 <= result_0 && result_0 <= len(arg0) && tilesRead == old(tilesRead) + result_0
+  assumes readerExhausted == (result_0 == 0 || !isnil(result_1))
+  // ASSUMED data invariant: the entries delivered exist and their keys are at least two bytes long
+  assumes forall i int :: 0 <= i && i < result_0 ==> arg0[i] != nil && len(arg0[i].Key) >= 2
+func KVPairReader.Close
+  modifies openReaders
+  assumes openReaders == old(openReaders) - 1
 func Store.Close
   modifies everything
 
